@@ -555,7 +555,8 @@ func (e *Encoder) seedFromInit(fn *ssa.Function, st *State) *State {
 	}
 	c := e.c
 	// all module packages start uninitialised
-	for path, sp := range e.w.SSAPkgs {
+	for _, path := range sortedStrKeys(e.w.SSAPkgs) {
+		sp := e.w.SSAPkgs[path]
 		if !strings.HasPrefix(path, modPath) {
 			continue
 		}
